@@ -19,7 +19,8 @@ Lemma source_switches :
   src_input_format_disables_conversion = true /\ src_sep_from = (45, 46) /\ src_sep_to = 47 /\
   src_max_date_len = 127 /\ src_written_date_format = [37; 89; 47; 37; 109; 47; 37; 100] /\
   src_format_cache_exact_match = true /\
-  src_year_directive_unconditional = true /\ src_year_directive_month = 12 /\ src_year_directive_day = 31.
+  src_year_directive_unconditional = true /\ src_year_directive_month = 12 /\ src_year_directive_day = 31 /\
+  src_file_end_restores_front_only = true.
 Proof. repeat split. Qed.
 
 Definition I_md := [IDir 109; ILit 47; IDir 100].
@@ -1131,5 +1132,61 @@ Lemma parse_md_after_year_directive st yr m d zm zd s1 :
   parse_date [] (es_cur (year_directive st yr)) (spell_md_sep m d zm zd s1) = DOk (boost_day_number yr m d).
 Proof.
   intros V Hy H1. rewrite year_directive_cur. apply parse_md_spelled; try assumption. destruct V; lia.
+Qed.
+
+(* ------------------------------------------------------------------ included files *)
+Definition only_queries (evs : list jevent) : Prop := Forall (fun e => e = JQuery) evs.
+
+Lemma final_app st a b : final_state st (a ++ b) = final_state (final_state st a) b.
+Proof. apply fold_left_app. Qed.
+
+Lemma final_queries st evs : only_queries evs -> final_state st evs = st.
+Proof.
+  intros H. revert st. induction H as [|e evs -> _ IH]; intros st; [reflexivity|]. cbn. apply IH.
+Qed.
+
+Lemma file_end_begin st : file_end (file_begin st) = st.
+Proof. destruct st. reflexivity. Qed.
+
+(* a file without year directives leaves the clock and the includer's stack alone *)
+Lemma include_plain_file st evs :
+  only_queries evs -> final_state st (JFileBegin :: evs ++ [JFileEnd]) = st.
+Proof.
+  intros H. cbn [final_state fold_left step]. fold (final_state (file_begin st) (evs ++ [JFileEnd])).
+  rewrite final_app, (final_queries _ _ H). cbn. apply file_end_begin.
+Qed.
+
+(* a file that leaves exactly one year directive open gives the includer its clock back *)
+Lemma include_one_open st yr evs :
+  only_queries evs -> final_state st (JFileBegin :: JYear yr :: evs ++ [JFileEnd]) = st.
+Proof.
+  intros H. cbn [final_state fold_left step].
+  fold (final_state (year_directive (file_begin st) yr) (evs ++ [JFileEnd])).
+  rewrite final_app, (final_queries _ _ H). destruct st. reflexivity.
+Qed.
+
+(* a file whose `apply year` is closed by `end apply` likewise *)
+Lemma include_closed_apply st yr evs evs' :
+  only_queries evs -> only_queries evs' ->
+  final_state st (JFileBegin :: JYear yr :: evs ++ JEnd :: evs' ++ [JFileEnd]) = st.
+Proof.
+  intros H H'. cbn [final_state fold_left step].
+  fold (final_state (year_directive (file_begin st) yr) (evs ++ JEnd :: evs' ++ [JFileEnd])).
+  rewrite final_app, (final_queries _ _ H). cbn [final_state fold_left step].
+  rewrite end_apply_year_directive.
+  fold (final_state (file_begin st) (evs' ++ [JFileEnd])).
+  rewrite final_app, (final_queries _ _ H'). cbn. apply file_end_begin.
+Qed.
+
+(* two directives left open: the includer goes on in the year of the FIRST of them *)
+Lemma include_two_open st y1 y2 evs evs' :
+  only_queries evs -> only_queries evs' ->
+  es_cur (final_state st (JFileBegin :: JYear y1 :: evs ++ JYear y2 :: evs' ++ [JFileEnd])) = (y1, 12, 31).
+Proof.
+  intros H H'. cbn [final_state fold_left step].
+  fold (final_state (year_directive (file_begin st) y1) (evs ++ JYear y2 :: evs' ++ [JFileEnd])).
+  rewrite final_app, (final_queries _ _ H). cbn [final_state fold_left step].
+  fold (final_state (year_directive (year_directive (file_begin st) y1) y2) (evs' ++ [JFileEnd])).
+  rewrite final_app, (final_queries _ _ H'). destruct st. reflexivity.
 Qed.
 
